@@ -32,7 +32,7 @@ BASE_OF = {"N": spydrnet.ir.netlist.Netlist, "L": spydrnet.ir.library.Library,
            "D": spydrnet.ir.definition.Definition, "P": spydrnet.ir.port.Port,
            "C": spydrnet.ir.cable.Cable, "I": spydrnet.ir.instance.Instance,
            "Q": spydrnet.ir.innerpin.InnerPin, "W": spydrnet.ir.wire.Wire}
-KEYMAP = {"name": ".NAME", "eid": "EDIF.identifier", "ns": ".NS", "k": "k", "props": "props"}
+KEYMAP = {"name": ".NAME", "eid": "EDIF.identifier", "ns": ".NS", "k": "k", "props": "EDIF.properties"}
 MODELLED_KEYS = set(KEYMAP.values())
 
 
@@ -99,7 +99,7 @@ def _data(e):
     rec = {"name": _val(d[".NAME"]) if ".NAME" in d else "",
            "eid": _val(d["EDIF.identifier"]) if "EDIF.identifier" in d else "",
            "ns": _val(d[".NS"]) if ".NS" in d else "",
-           "k": _val(d["k"]) if "k" in d else "", "props": _props(d["props"]) if "props" in d else ""}
+           "k": _val(d["k"]) if "k" in d else "", "props": _props(d["EDIF.properties"]) if "EDIF.properties" in d else ""}
     if other:
         rec["other"] = json.dumps(other, sort_keys=True, default=repr)
     return rec
@@ -108,8 +108,11 @@ def _data(e):
 def _props(v):
     """the nested user value is a list holding one dict; its abstraction is the token inside"""
     try:
-        if isinstance(v, list) and len(v) == 1 and set(v[0]) == {"identifier", "value"}:
-            return _val(v[0]["value"])
+        if isinstance(v, list) and v and all(set(x) == {"identifier", "value"} for x in v):
+            tok = _val(v[0]["value"])
+            if len(v) == 2 and v[1] == {"identifier": "q", "value": "w"}:
+                return tok
+            return tok + "#" + str(len(v))
     except Exception:
         pass
     return "<%r>" % (v,)
@@ -435,7 +438,7 @@ def _do(reg, c):
     if op in ("set_item", "del_item", "pop_item", "set_name", "del_name", "set_name_none"):
         e = reg.get(c["kind"], c["x"])
         if op == "set_item":
-            e[KEYMAP[c["key"]]] = [{"identifier": "p", "value": c["val"]}] if c["key"] == "props" else c["val"]
+            e[KEYMAP[c["key"]]] = [{"identifier": "p", "value": c["val"]}, {"identifier": "q", "value": "w"}] if c["key"] == "props" else c["val"]
         elif op == "del_item":
             del e[KEYMAP[c["key"]]]
         elif op == "pop_item":
@@ -453,7 +456,13 @@ def _do(reg, c):
                     "dir": "direction"}[c["key"]], c["val"])
         return []
     if op == "mutate_props":
-        reg.get(c["kind"], c["x"])["props"][0]["value"] = c["val"]
+        reg.get(c["kind"], c["x"])["EDIF.properties"][0]["value"] = c["val"]
+        return []
+    if op == "drop_prop":
+        del reg.get(c["kind"], c["x"])["EDIF.properties"][-1]
+        return []
+    if op == "set_dir":
+        reg.get("P", c["x"]).direction = c["ival"]
         return []
     if op == "set_lower":
         reg.get(c["kind"], c["x"]).lower_index = c["ival"]
@@ -641,6 +650,24 @@ def _q_query(reg, c):
     return []
 
 
+def _x_compare(reg, c):
+    from spydrnet.compare.compare_netlists import Comparer
+    import io
+    import contextlib
+    raises, exc = False, ""
+    try:
+        with contextlib.redirect_stdout(io.StringIO()):
+            Comparer(reg.get("N", c["a"]), reg.get("N", c["b"])).compare()
+    except CallTimeout:
+        raise
+    except BaseException as e:      # AssertionError, StopIteration, AttributeError ... all count as "raises"
+        raises, exc = True, type(e).__name__
+    reg.last_ret = []
+    reg.last_info = []
+    reg.last_extra = {"raises": raises, "raised": exc}
+    return []
+
+
 def _x_clone(reg, c):
     obj = reg.get(c["kind"], c["x"])
     new = obj.clone()
@@ -648,7 +675,7 @@ def _x_clone(reg, c):
     return [(c["kind"], new)]
 
 
-QUERY_OPS = {"q": _q_query, "clone": _x_clone, "hq": _q_hq, "hcheck": _q_hcheck, "uniquify": _x_uniquify, "flatten": _x_flatten}
+QUERY_OPS = {"compare": _x_compare, "q": _q_query, "clone": _x_clone, "hq": _q_hq, "hcheck": _q_hcheck, "uniquify": _x_uniquify, "flatten": _x_flatten}
 
 
 class CallTimeout(Exception):
@@ -752,7 +779,7 @@ def project_mirror(reg):
         rec = {"name": _val(d[".NAME"]) if ".NAME" in d else "",
                "eid": _val(d["EDIF.identifier"]) if "EDIF.identifier" in d else "",
                "ns": _val(d[".NS"]) if ".NS" in d else "", "k": _val(d["k"]) if "k" in d else "",
-               "props": _props(d["props"]) if "props" in d else ""}
+               "props": _props(d["EDIF.properties"]) if "EDIF.properties" in d else ""}
         if other:
             rec["other"] = json.dumps(other, sort_keys=True, default=repr)
         return rec
